@@ -853,7 +853,8 @@ func runC15(r *core.Run) {
 		add([]c15File{{"a.xz", "xz:small", 0o644}, {"a", "plain:other", 0o644}}, argv)
 	}
 	// 4. file-name kinds x {compress, decompress}
-	names := []string{"plain", "with space", "-dash", "--", "x.xz", "x.lzma", "x.txz", "x.tlz", "x.dat", "x.tar.xz", ".xz", "a.xz.xz", "ünï.txt"}
+	// ("-.xz" / "-.lzma" / "-.txz": the name the output gets is "-" / "-.tar", which elsewhere stands for the standard streams)
+	names := []string{"plain", "with space", "-dash", "--", "x.xz", "x.lzma", "x.txz", "x.tlz", "x.dat", "x.tar.xz", ".xz", "a.xz.xz", "ünï.txt", "-.xz", "-.lzma", "-.txz"}
 	for _, n := range names {
 		for _, opts := range [][]string{{}, {"-k"}, {"-F", "lzma"}, {"-d"}, {"-d", "-f"}, {"-d", "-F", "lzma"}, {"-dc"}, {"-c"}} {
 			for _, content := range []string{"plain:small", "xz:small", "lzma:small"} {
